@@ -308,32 +308,36 @@ func c12TripleKey(a, b, c interface{}) string {
 // mutateValue returns a near copy of v that differs late (last leaf changed or
 // an element appended/removed).
 func mutateValue(r *fw.Rand, v interface{}) interface{} {
+	return mutateValueP(r, v, gen.Boundary)
+}
+
+func mutateValueP(r *fw.Rand, v interface{}, pool gen.Pool) interface{} {
 	switch x := v.(type) {
 	case bson.D:
 		c := gen.CloneDoc(x)
 		if len(c) == 0 || r.Chance(1, 4) {
-			return append(c, bson.E{Key: fw.Pick(r, gen.Keys), Value: gen.Scalar(r, gen.Boundary)})
+			return append(c, bson.E{Key: fw.Pick(r, gen.Keys), Value: gen.Scalar(r, pool)})
 		}
 		if r.Chance(1, 4) {
 			return c[:len(c)-1]
 		}
-		c[len(c)-1].Value = mutateValue(r, c[len(c)-1].Value)
+		c[len(c)-1].Value = mutateValueP(r, c[len(c)-1].Value, pool)
 		return c
 	case bson.A:
 		c := gen.CloneValue(x).(bson.A)
 		if len(c) == 0 || r.Chance(1, 4) {
-			return append(c, gen.Scalar(r, gen.Boundary))
+			return append(c, gen.Scalar(r, pool))
 		}
 		if r.Chance(1, 4) {
 			return c[:len(c)-1]
 		}
-		c[len(c)-1] = mutateValue(r, c[len(c)-1])
+		c[len(c)-1] = mutateValueP(r, c[len(c)-1], pool)
 		return c
 	default:
 		if ref.Class(v) == ref.CNumber {
-			return gen.Number(r, gen.Boundary)
+			return gen.Number(r, pool)
 		}
-		return gen.Scalar(r, gen.Boundary)
+		return gen.Scalar(r, pool)
 	}
 }
 
